@@ -235,3 +235,58 @@ Proof.
     by (intros A f l; induction l as [|x l IH]; cbn; [reflexivity | rewrite IH; reflexivity]).
   rewrite (M _ T_compiledPrefix_wellKnown), (M _ cp_wk), E. reflexivity.
 Qed.
+
+(* ---------------- the TTL minimum loop of synthesise (session 4) ----------------
+   `for _, a := range addresses { if a.Hdr.Ttl < ttl { ttl = a.Hdr.Ttl } }` as the
+   translator reads it (loop 1 of responseWriter.synthesise; dns.A and
+   dns.RR_Header translate as Records): it falls through with the running
+   minimum of the A TTLs below the initial value — the fold of Model.synth_ttl *)
+Definition gttl (a : T_A) : N := T_RR_Header_Ttl (T_A_Hdr a).
+Definition rr_as_A (r : rr) : T_A :=
+  match r with
+  | RA o t ip => mk_T_A (mk_T_RR_Header o 1 1 t 0) ip
+  | _ => zero_T_A
+  end.
+
+Lemma gen_synth_ttl_loop_from : forall suf pre fuel va ttl,
+  (length suf < fuel)%nat ->
+  go_responseWriter_synthesise_loop1 (pre ++ suf) fuel (Z.of_nat (length pre)) va ttl
+  = (GoNext, (va, fold_left (fun t a => if gttl a <? t then gttl a else t) suf ttl)).
+Proof.
+  induction suf as [|a suf IH]; intros pre fuel va ttl Hf; (destruct fuel as [|fuel]; [cbn [length] in Hf; lia|]).
+  - cbn [go_responseWriter_synthesise_loop1 fold_left]. rewrite app_nil_r. unfold go_len.
+    rewrite Z.ltb_irrefl. reflexivity.
+  - cbn [go_responseWriter_synthesise_loop1 fold_left]. unfold go_len. rewrite app_length. cbn [length].
+    replace (Z.of_nat (length pre) <? Z.of_nat (length pre + S (length suf)))%Z with true by (symmetry; apply Z.ltb_lt; lia).
+    rewrite go_idx_app_mid. fold (gttl a).
+    replace (Z.add (Z.of_nat (length pre)) 1) with (Z.of_nat (length (pre ++ [a]))) by (rewrite app_length; cbn [length]; lia).
+    replace (pre ++ a :: suf) with ((pre ++ [a]) ++ suf) by (rewrite <- app_assoc; reflexivity).
+    cbn [length] in Hf.
+    destruct (gttl a <? ttl); apply IH; lia.
+Qed.
+
+Lemma gen_synth_ttl_loop gaddrs ttl :
+  go_responseWriter_synthesise_loop1_run gaddrs ttl
+  = (GoNext, (gaddrs, fold_left (fun t a => if gttl a <? t then gttl a else t) gaddrs ttl)).
+Proof.
+  unfold go_responseWriter_synthesise_loop1_run. cbv zeta.
+  apply (gen_synth_ttl_loop_from gaddrs [] (S (length gaddrs)) gaddrs ttl). lia.
+Qed.
+
+Lemma fold_ttl_map (addrs : list rr) : forall ttl,
+  fold_left (fun t a => if gttl a <? t then gttl a else t) (map rr_as_A addrs) ttl
+  = fold_left (fun t a => if a_ttl a <? t then a_ttl a else t) addrs ttl.
+Proof.
+  induction addrs as [|r l IH]; intros ttl; [reflexivity|]. cbn [map fold_left].
+  assert (gttl (rr_as_A r) = a_ttl r) as -> by (destruct r; reflexivity). apply IH.
+Qed.
+
+(* Model.synth_ttl is the translated loop run from the ceiling, then the tree's bound *)
+Lemma synth_ttl_by_gen_loop v ns addrs cut :
+  go_responseWriter_synthesise_loop1_run (map rr_as_A addrs) (ttl_ceiling v ns)
+  = (GoNext, (map rr_as_A addrs, synth_ttl v ns addrs None))
+  /\ synth_ttl v ns addrs cut = bound_ttl cut (synth_ttl v ns addrs None).
+Proof.
+  split; [|reflexivity].
+  rewrite gen_synth_ttl_loop, fold_ttl_map. reflexivity.
+Qed.
